@@ -17,6 +17,7 @@ import re
 
 import exprtrans
 import vlib
+from checks import proccommon
 
 P2P = "node/pkg/p2p/p2p.go"
 GSET = "node/pkg/common/guardianset.go"
@@ -159,6 +160,10 @@ def gen(ctx):
     return facts if ok else None
 
 
+# never let `go test` rewrite /repo/node/go.mod (vlib sets GOFLAGS=-mod=mod; the command-line flag wins)
+READONLY = ("-mod=readonly",)
+
+
 def classify(clause, case, verdict):
     return clause
 
@@ -181,17 +186,20 @@ def _judge(ctx, cases, label):
     ctx.cov["distinct_nontrivial"] += n_ok
     ctx.cov["samples"] += samples
     ctx.cov.setdefault("generator_distribution", {})[label] = kinds
+    tot = ctx.cov.setdefault("driver_stats_total", {})       # judge() overwrites driver_stats per call: keep the sum
+    for k, v in stats.items():
+        tot[k] = max(tot.get(k, 0), v) if k == "max_entries_per_guardian" else tot.get(k, 0) + v
     return stats
 
 
 def run(ctx):
     gen(ctx)
-    ctx.prove(families=("gossip",))
+    ctx.prove(families=("gossip", "processor"))
 
     # ---- 1. the two p2p verifiers
     ov = ctx.overlay({"node/pkg/p2p/zz_verif_c03_test.go": "p2p/c03_gossip_verif_test.go"}, p2p_stub=True)
     if ov is not None:
-        rc, out = ctx.go_test("node", "./pkg/p2p", "^TestVerifC03Gossip$", ov)
+        rc, out = ctx.go_test("node", "./pkg/p2p", "^TestVerifC03Gossip$", ov, extra=READONLY)
         cases = os.path.join(ctx.work, "gossip.cases")
         if rc != 0 or not os.path.exists(cases):
             ctx.broken.append(("tie", "go-harness:p2p", out[-800:]))
@@ -205,16 +213,23 @@ def run(ctx):
 
     # ---- 2. GuardianSetState.SetHeartbeat / Cleanup / cap
     ov2 = ctx.overlay({"node/pkg/common/zz_verif_c03_test.go": "common/c03_table_verif_test.go"})
-    rc, out = ctx.go_test("node", "./pkg/common", "^TestVerifC03Table$", ov2)
+    rc, out = ctx.go_test("node", "./pkg/common", "^TestVerifC03Table$", ov2, extra=READONLY)
     cases2 = os.path.join(ctx.work, "gossip_table.cases")
     if rc != 0 or not os.path.exists(cases2):
         ctx.broken.append(("tie", "go-harness:common", out[-800:]))
     else:
         _judge(ctx, cases2, "common")
 
-    # processor observation gate: added by the processor owner
-    # (a second harness run against node/pkg/processor handleObservation — forged / non-member / wrong-address observations
-    #  with the aggregation map compared before/after — can be appended here; it should add its cases to ctx.cov the same way)
+    if "driver_stats_total" in ctx.cov:
+        ctx.cov["driver_stats"] = ctx.cov.pop("driver_stats_total")
+
+    # processor observation gate (C03's first sentence, for gossiped observations): the processor family's harness delivers
+    # forged / non-member / wrong-address / wrong-digest / truncated observations to the real handleObservation and the
+    # driver's clause `invalid-observation-changed-state` demands that aggregation summary, store and outputs are untouched;
+    # the theorem is Whv.C03.observation_gate_noop (= C02.invalid_observation_noop) on the processor model.
+    rule_before = ctx.cov.get("rule", "")
+    proccommon.run_processor(ctx, "C03", "")
+    proc_rule = ctx.cov.get("rule", "")
 
     ctx.cov["rule"] = ("p2p: sessions on one real GuardianSetState: for guardian sets of 1, 2, 3 and 19 keys every single mutation of a valid "
                        "heartbeat and of a valid observation request (payload/signature/address byte flips, truncation, extension, "
@@ -226,7 +241,7 @@ def run(ctx):
                        "disableVerify=true sessions (tie only), random interleavings; common: random SetHeartbeat / Cleanup sequences. "
                        "After EVERY call the full GetAll() table, the update channel and a metrics fingerprint are recorded. "
                        "evaluations = case lines; distinct_nontrivial = sessions on which model and implementation agreed on every "
-                       "result, error kind and table, and the Spec held on the implementation's own results")
+                       "result, error kind and table, and the Spec held on the implementation's own results. processor (observation gate): " + proc_rule)
     ctx.cov["trusted_base"] += [
         "harness/p2p/c03_gossip_verif_test.go + harness/common/c03_table_verif_test.go (generators, canonical table rendering, independent oracle computation with go-ethereum's Keccak/Ecrecover and protobuf) and Whv/Driver/Gossip.lean (comparison + Spec)",
         "checks/c03.py regexes (prefixes, floor conditions, constants, call sites in p2p.Run / node.go); p2p.Run itself is not executed (its body is what the p2p stub removes)",
@@ -235,5 +250,5 @@ def run(ctx):
     ctx.assumptions += [
         "the property describes disableHeartbeatVerify=false (the flag's default, checked textually); with the flag set the code stores any correctly self-signed heartbeat under its recovered signer (modelled and tied, not part of the Spec)",
         "Cleanup reads the wall clock: the harness only uses timestamps at least a minute away from the expiry boundary, the clock reading travels in the line",
-        "handleObservation's gate (third part of the statement) is covered by the processor owner's check",
+        "handleObservation's gate is exercised through the processor family's harness (clause invalid-observation-changed-state) and proved as Whv.C03.observation_gate_noop",
     ]
